@@ -54,7 +54,8 @@ def space(tier: str):
         ts += trees(2, TINY[:2], width=2, task_types=('NoCacheT', 'JFoo'), inner_leaves=TINY[:2])
     else:
         ts = trees(2, SMALL, width=2, task_types=('Leaf', 'BLeaf'), inner_leaves=SMALL)
-        ts += trees(3, TINY[:3], width=2, task_types=('Leaf',), inner_leaves=TINY[:3])
+        ts += trees(3, TINY, width=1, task_types=('Leaf', 'BLeaf'), inner_leaves=TINY)
+        ts += trees(3, [1], width=2, task_types=('Leaf',), inner_leaves=[1])
         ts += trees(1, FULL, width=2, task_types=('Leaf', 'BLeaf'), inner_leaves=FULL)
         ts += trees(2, TINY, width=2, task_types=('NoCacheT', 'JFoo', 'Leaf'), inner_leaves=TINY)
     seen = set()
